@@ -152,10 +152,10 @@ def layout_circuits(draw, max_total=6, max_blocks=3, max_block_gates=4, slack=2)
     span = total + draw(st.integers(0, slack))
     slots = list(draw(st.permutations(list(range(span)))))[:total]
     gates, off = [], 0
-    for w in widths:
+    for bi, w in enumerate(widths):
         idx = slots[off:off + w]
         off += w
-        for h in draw(st.lists(gate9(w, max_controls=2), min_size=0, max_size=max_block_gates)):
+        for h in draw(st.lists(gate9(w, max_controls=2), min_size=1 if bi == 0 else 0, max_size=max_block_gates)):
             h["t"] = [idx[q] for q in h["t"]]
             h["c"] = [idx[q] for q in h["c"]] if h["c"] else None
             gates.append(h)
@@ -251,9 +251,26 @@ def remap(recs, mapping):
     return out
 
 
+def separated_pair(recs):
+    """Two gates on identical (target, control) lists with >=1 gate on disjoint qubits (and nothing else) in between."""
+    for i, g in enumerate(recs):
+        qs = set(gq(g))
+        for j in range(i + 1, len(recs)):
+            h = recs[j]
+            if (h["t"], h["c"]) == (g["t"], g["c"]):
+                if j > i + 1:
+                    return True
+                break
+            if qs & set(gq(h)):
+                break
+    return False
+
+
 def base_labels(case):
     recs = case["gates"]
     out = set()
+    if separated_pair(recs):
+        out.add("same-qubits-pair-across-interleaved-gates")
     if has_ctrl_rot(recs):
         out.add("ctrl-rot")
     if big_ctrl_rot(recs):
@@ -545,6 +562,8 @@ def pass_body(case):
         labels.add("changed")
     if removed:
         labels.add("removed-gates")
+        if "same-qubits-pair-across-interleaved-gates" in labels:
+            labels.add("removed-gates+pair-across-interleaved-gates")
     if "thr" in case:
         labels.add("thr=" + (str(thr) if thr in THRESHOLDS else "random"))
     if case.get("rq"):
@@ -554,7 +573,7 @@ def pass_body(case):
     return changed or big_ctrl_rot(recs) or "index-gaps" in labels, labels
 
 
-@part("passes", quick=4800, thorough=160000)
+@part("passes", quick=6400, thorough=200000)
 def passes_part(ctx):
     mw, mg = (5, 14) if ctx.tier == "quick" else (6, 24)
     for op, form in PASS_SEARCHES:
@@ -571,7 +590,7 @@ def model_tracked(case):
     return sorted(used)
 
 
-@part("layout", quick=2000, thorough=80000)
+@part("layout", quick=2400, thorough=80000)
 def layout_part(ctx):
     from tangelo.linq import stack as stack_fn
     mt = 6 if ctx.tier == "quick" else 7
